@@ -160,9 +160,13 @@ func nonEmptyArg(rc *core.RC, fd *ast.FuncDecl, cf *core.FuncCFG, at ast.Node, a
 			return true
 		}
 		// if len(X) > e { … call … }
-		if inBody && be.Op == token.GTR {
-			if c, ok := core.Unparen(be.X).(*ast.CallExpr); ok && core.IsBuiltin(info, c, "len") && types.ExprString(core.Unparen(c.Args[0])) == base {
-				if types.ExprString(core.Unparen(be.Y)) == types.ExprString(core.Unparen(se.Low)) {
+		if inBody && (be.Op == token.GTR || be.Op == token.LSS) {
+			lenSide, other := be.X, be.Y
+			if be.Op == token.LSS { // e < len(X)
+				lenSide, other = be.Y, be.X
+			}
+			if c, ok := core.Unparen(lenSide).(*ast.CallExpr); ok && core.IsBuiltin(info, c, "len") && types.ExprString(core.Unparen(c.Args[0])) == base {
+				if types.ExprString(core.Unparen(other)) == types.ExprString(core.Unparen(se.Low)) {
 					found, why = true, "inside `if "+core.Src(rc.P.Fset, ifs.Cond)+"`"
 				}
 			}
@@ -1519,4 +1523,45 @@ func c20r15(rc *core.RC) {
 	}
 	// no instance on a tree that hands out copies of the literals: the rule is kept alive by its seeded change
 	rc.OK("decoder/backward-slices", token.NoPos, "%d parts of the input taken backwards from a cursor behind a constant step, each spanning the step", n)
+}
+
+// ---- C20.R16 evaluating a path cuts text and converts nothing ----
+
+// DecodePath of a decoder answers with parts of the input. A number that a path selects, or walks past, is handed out
+// as it is spelled: 1e400 and an integer of 400 digits are valid documents that no Go number holds. Obligation: no
+// DecodePath method of package decoder calls a conversion of package strconv or the package's own parseInt / parseUint
+// (directly: the scanners it shares with Decode only find the end of the number).
+func c20r16(rc *core.RC) {
+	p := rc.P
+	n := 0
+	for _, fd := range p.Funcs("decoder") {
+		if fd.Body == nil || fd.Name.Name != "DecodePath" || fd.Recv == nil {
+			continue
+		}
+		n++
+		info := p.Info(fd)
+		rc.Touch(p.FuncName(fd))
+		key := p.FuncName(fd) + "/no-conversion"
+		var bad *ast.CallExpr
+		name := ""
+		ast.Inspect(fd.Body, func(m ast.Node) bool {
+			call, ok := m.(*ast.CallExpr)
+			if !ok || bad != nil {
+				return true
+			}
+			cn := core.CalleeName(info, call)
+			if strings.HasPrefix(cn, "strconv.Parse") || cn == "strconv.Atoi" || strings.HasSuffix(cn, ".parseInt") || strings.HasSuffix(cn, ".parseUint") || strings.HasPrefix(cn, "math/big.") {
+				bad, name = call, cn
+			}
+			return true
+		})
+		if bad != nil {
+			rc.Bad(key, bad.Pos(), "%s converts the number it found (%s) and fails when the conversion does: a valid document with a number outside the range of the Go type (1e400) is refused by Extract as soon as a path walks past that number", p.FuncName(fd), name)
+		} else {
+			rc.OK(key, fd.Pos(), "the selected text is handed out without a conversion")
+		}
+	}
+	if n < 15 {
+		rc.Unknown("decoder/DecodePath-methods", token.NoPos, "found %d DecodePath methods, fewer than the 15 confirmed by hand", n)
+	}
 }
